@@ -52,6 +52,10 @@ pub enum Op {
     Reparse,
     /// `Package::sign` (signature time = now) instead of sign_with_timestamp
     SignNow(u8),
+    /// `pkg.metadata.signature.clear()` - the public in-place reset of the signature header
+    ClearSigInPlace,
+    /// `pkg.metadata.signature = Header::new_empty()`
+    EmptySig,
 }
 
 pub fn op_any() -> BoxedStrategy<Op> {
@@ -77,6 +81,14 @@ pub fn apply_op(pkg: &mut rpm::Package, op: &Op) -> Result<(), (String, String)>
                 pkg.sign(ks.signers[*k as usize % 4].clone())
             }
             Op::Clear => pkg.clear_signatures(),
+            Op::ClearSigInPlace => {
+                pkg.metadata.signature.clear();
+                Ok(())
+            }
+            Op::EmptySig => {
+                pkg.metadata.signature = rpm::Header::<rpm::IndexSignatureTag>::new_empty();
+                Ok(())
+            }
             Op::Reparse => {
                 let mut v = Vec::new();
                 pkg.write(&mut v)?;
